@@ -129,7 +129,8 @@ func c14rBody(w *c14rWorld, startAt int64, ap [2]string, attestDur, subDelay int
 	for i := 1; i <= 3; i++ {
 		byIndex[phase0.ValidatorIndex(i)] = newAccount("W", fmt.Sprintf("v%d", i), byte(i))
 	}
-	accts := &accountsTable{byIndex: byIndex}
+	// validator 3 becomes active with the epoch after the one vouch starts in: the accounts of the two epochs differ
+	accts := &accountsTable{byIndex: byIndex, activeFrom: map[phase0.ValidatorIndex]phase0.Epoch{3: phase0.Epoch(c03Epoch0 + 1)}}
 	ev := &eventsProvider{}
 	subscriber, err := standardsubscriber.New(ctx, standardsubscriber.WithLogLevel(zerolog.Disabled), standardsubscriber.WithMonitor(&nullmetrics.Service{}),
 		standardsubscriber.WithProcessConcurrency(2), standardsubscriber.WithChainTimeService(ct), standardsubscriber.WithAttesterDutiesProvider(c14rSlowDuties{w}),
